@@ -344,8 +344,14 @@ fn replace_patch_headers(patch_str: &str, from_path: &Path, to_path: &Path) -> S
         }
     };
 
+    // Only the two header lines in front of the first hunk are file names; a body line such
+    // as "--- x" (a deleted line "-- x") or "+++ x" must be kept byte for byte
+    let mut in_header = true;
     for line in lines {
-        if line.starts_with("--- ") {
+        if line.starts_with("@@") {
+            in_header = false;
+        }
+        if in_header && line.starts_with("--- ") {
             // Replace "--- original" with actual from path (relative)
             // Preserve the original line ending
             write!(result, "--- {}", from_str).unwrap();
@@ -355,7 +361,7 @@ fn replace_patch_headers(patch_str: &str, from_path: &Path, to_path: &Path) -> S
             } else if line.ends_with('\n') {
                 result.push('\n');
             }
-        } else if line.starts_with("+++ ") {
+        } else if in_header && line.starts_with("+++ ") {
             // Replace "+++ modified" with actual to path (relative)
             // Preserve the original line ending
             write!(result, "+++ {}", to_str).unwrap();
